@@ -23,7 +23,19 @@ Definition vcase_prop_ok (c : vcase) : bool :=
    by the harness (a self loop A->A is [A;A], A->B->A is [A;B;A], a straight
    chain A->B->origin is [A;B]); each hop comes with the protocol version of
    the request as it reaches that hop. *)
-Record hop := { hp_tag : str; hp_maj : N; hp_min : N }.
+Record hop := { hp_inst : N; hp_tag : str; hp_maj : N; hp_min : N }.
+
+(* "an identifier unique to that instance": different instances on a route carry different tags *)
+Fixpoint tag_clash (p : hop) (l : list hop) : bool :=
+  match l with
+  | [] => false
+  | q :: r => (negb (hp_inst p =? hp_inst q) && str_eqb (hp_tag p) (hp_tag q)) || tag_clash p r
+  end.
+Fixpoint tags_unique (l : list hop) : bool :=
+  match l with
+  | [] => true
+  | p :: r => negb (tag_clash p r) && tags_unique r
+  end.
 Record ecase := { e_route : list hop; e_client_via : list str;
                   e_nominated : bool;  (* the client also sent "Connection: Via" *)
                   e_connect : bool;    (* CONNECT (the origin sees a connection, no header) *)
@@ -90,8 +102,14 @@ Fixpoint spec_route (hops : list hop) (nominated connect : bool) (ch : list str)
   end.
 
 Definition ecase_prop_ok (c : ecase) : bool :=
+  tags_unique (e_route c) &&
   spec_route (e_route c) (e_nominated c) (e_connect c) (chain (e_client_via c))
              (negb (e_status c =? 200)) (e_status c) (e_origin_contacts c) (e_origin_via c).
+
+(* ---- instance tags of repeatedly constructed stacks (httpspec.NewStack through the verif re-export) ---- *)
+Record ucase := { u_name : str; u_tags : list str }.
+Definition ucase_model_ok (c : ucase) : bool := forallb (tag_has_form (u_name c)) (u_tags c).
+Definition ucase_prop_ok (c : ucase) : bool := nodupb (u_tags c) && (80 <=? via_boundary_bytes * 8).
 
 (* indices (from 0) of the cases on which f fails *)
 Fixpoint bad_from {A} (f : A -> bool) (i : N) (l : list A) : list N :=
